@@ -64,7 +64,7 @@ func extract(ex utils.SourceExtractor, mutate func(r *http.Request)) (tok string
 
 func Run(tier string, sh lib.Shard, rep *lib.Report) {
 	rep.Rule = "exhaustive enumeration: IPv4 quads over {0,1,10,127,255}^4 x 3 ports, 6 IPv6 addresses x 3 zone forms x 3 ports (in the bracketed form net/http produces), every string of length <= 5 over {1 a : [ ] . %} as malformed input, all pairs of well-formed addresses for the iff test, Host values, header name/value case variants, variable names incl. misspellings; non-trivial = distinct well-formed addresses + distinct accepted/refused variables"
-	rep.Require("wellformed_addresses", "ipv6_addresses", "pairs_compared", "malformed_strings", "variables_refused", "header_cases", "header_values_bytewise")
+	rep.Require("wellformed_addresses", "ipv6_addresses", "pairs_compared", "malformed_strings", "variables_refused", "header_cases", "header_values_bytewise", "addresses_after_a_fragment")
 	what := func(kind string, in any) map[string]any {
 		return map[string]any{"engine": "enum", "part": "c19", "kind": kind, "input": in}
 	}
@@ -123,6 +123,32 @@ func Run(tier string, sh lib.Shard, rep *lib.Report) {
 		}
 	}
 	rep.Evaluations += rep.Counters["pairs_compared"]
+	// 2b. what the extractor has seen BEFORE must not matter: the long-lived extractor is first shown a fragment of
+	// the address (every proper prefix and suffix of the RemoteAddr text: bare addresses without a port, an address
+	// that the next one extends, half a bracket, the empty string, ...), then the well-formed address itself.
+	for i, a := range as {
+		a := a
+		var frags []string
+		for k := 0; k < len(a.remote); k++ {
+			frags = append(frags, a.remote[:k])
+			if k > 0 {
+				frags = append(frags, a.remote[k:])
+			}
+		}
+		frags = append(frags, a.ip, "["+a.ip+"]", "@", "/var/run/proxy.sock")
+		for _, f := range frags {
+			f := f
+			extract(ipx, func(r *http.Request) { r.RemoteAddr = f })
+			tok, amount, err, p := extract(ipx, func(r *http.Request) { r.RemoteAddr = a.remote })
+			rep.Evaluations++
+			rep.Count("addresses_after_a_fragment")
+			if p != nil || err != nil || amount != 1 || tok != toks[i] {
+				rep.Violate("C19:client.ip:depends-on-earlier-request", fmt.Sprintf("RemoteAddr %q seen right after RemoteAddr %q: token %q amount %d err %v panic %v, on its own token %q", a.remote, f, tok, amount, err, p, toks[i]),
+					what("sequence", []string{f, a.remote}))
+				break
+			}
+		}
+	}
 	// 3. malformed inputs: no panic, deterministic; if it parses as host:port the token is the host
 	alpha := []byte("1a:[].%")
 	var gen func(cur []byte)
